@@ -262,12 +262,22 @@ def case_status(rs):
 
 def shrink_case(prop, case, kind, wdir, budget=60):
     """delta-debug the request lines of a failing case, preserving the failure kind."""
+    def sig(rs):
+        k, at = case_status(rs)
+        if k is None:
+            return None
+        t = rs[at].req.split()
+        return (k, tuple(t[:2]))
+    orig_sig = sig(run_pipeline(flatten([case]), "shrink", wdir)[1:])
+
     def fails(c):
         if not c:
             return False
-        rs = run_pipeline(flatten([c]), "shrink", wdir)[1:]
-        k, _ = case_status(rs)
-        return k == kind
+        try:
+            rs = run_pipeline(flatten([c]), "shrink", wdir)[1:]
+        except MachineryError:
+            return False
+        return sig(rs) == orig_sig and orig_sig is not None
     cur = list(case)
     t0 = time.time()
     # line-level ddmin
